@@ -4,6 +4,9 @@ import json, subprocess
 
 TECH = "contract-based deductive verification: weakest-precondition VCs generated over go/ssa of /repo's working tree from //@ contracts, discharged by z3 5.1/z3 4.8/cvc5"
 
+mon = 'the connection monitor (all state behind Connection.updateInFlight): each of the 17 action literals is verified together with the epilogue of updateInFlight against the monitor invariant and two-state transition clauses, so they hold for every interleaving of any number of goroutines (lock discipline and close-only channels are checked syntactically)'
+montrust = "Trusted: while stateMu is held, code reached through calls (closer.Close, onDone, cancel functions) cannot modify the protected state (non-reentrant mutex); ownership facts assumed, not machine-checked: ids drawn from the atomic counter are unique and a freshly allocated call object is unshared (Call$1), each goroutine's own counter contribution is still counted (Notify$1$1, processResult$2), acceptRequest runs on the reader goroutine (s.reading); in-flight counters stay below 2^62; select/receive on close-only channels; library contracts of stdlib.spec; VC generator/go-ssa/solvers."
+
 CLAIMED = {
  "C14": dict(
   text="Proof (all inputs): auth.verify is verified against an if-and-only-if admission contract taken from the property statement, plus exact status mapping, verifier called at most once and only with the presented token, and panic-freedom; loop invariant over the scope loop. Violations are failed named obligations.",
